@@ -257,6 +257,9 @@ func runC06(c *rt.Ctx) {
 			c.Trace(1)
 			c.Trans(int64(len(r.Trace)))
 			outs[r.Outcome] = true
+			if sc.Monitor > 0 && r.Dials > sc.PoolSize {
+				c.Add("n_event_sequences_in_which_the_pool_grew", 1)
+			}
 			fs := poolOracle(sc, r)
 			for _, f := range fs {
 				scc := sc
@@ -335,6 +338,23 @@ func runC06(c *rt.Ctx) {
 				big := wire.Op{Kind: "set", Key: "c0-big", VGen: true, VLen: 3000, VSeed: 5, Flags: 77}
 				big2 := wire.Op{Kind: "append", Key: "c2-h", VGen: true, VLen: 2500, VSeed: 6}
 				run(PoolScenario{Harness: "C06", BatchSize: bs, PoolSize: 2, Prep: append(append(append([]wire.Op{}, p0...), p1...), p2...), Callers: []wire.Op{big, b, big2}, StallBytes: 700})
+			}
+		}
+	}
+	// the pool grows while it is in use: the pool's own monitor runs (rend's default thresholds; with
+	// batches that are always full it adds a pooled connection at every evaluation) and "the monitor
+	// evaluates" is an event between the callers' events
+	for _, bs := range []int{1, 2} {
+		for i := range c0 {
+			if i%2 == 0 && !c.Thorough() {
+				continue
+			}
+			item++
+			if c.Mine(item) && !c.Expired() {
+				callers := []wire.Op{c0[i], c1[(i*7+3)%len(c1)], c2[(i*5+11)%len(c2)]}
+				prep := append(append(append([]wire.Op{}, p0...), p1...), p2...)
+				run(PoolScenario{Harness: "C06", BatchSize: bs, PoolSize: 1, Prep: prep, Callers: callers[:2], Monitor: 2, Late: true})
+				run(PoolScenario{Harness: "C06", BatchSize: bs, PoolSize: 1, Prep: prep, Callers: callers, Monitor: 2, Late: true})
 			}
 		}
 	}
